@@ -44,16 +44,22 @@ class SQLGenerator:
         Returns:
             DATE_TRUNC SQL expression appropriate for the dialect
         """
-        # Handle {model} placeholder or complex expressions - fall back to string
-        if "{" in column_expr or "(" in column_expr:
+        # Parse the column expression to handle table.column references
+        col = None
+        if "{" not in column_expr and "(" not in column_expr:
+            try:
+                col = sqlglot.parse_one(column_expr, into=exp.Column, dialect=self.dialect)
+            except Exception:
+                col = None  # not a bare column (ts + INTERVAL 1 DAY, ts::date, ...)
+
+        if col is None:
+            # {model} placeholder or any other expression - fall back to string
             # BigQuery: DATE_TRUNC(col, MONTH), others: DATE_TRUNC('month', col)
             if self.dialect == "bigquery":
                 return f"DATE_TRUNC({column_expr}, {granularity.upper()})"
             else:
                 return f"DATE_TRUNC('{granularity}', {column_expr})"
 
-        # Parse the column expression to handle table.column references
-        col = sqlglot.parse_one(column_expr, into=exp.Column, dialect=self.dialect)
         date_trunc = exp.DateTrunc(this=col, unit=exp.Literal.string(granularity))
         return date_trunc.sql(dialect=self.dialect)
 
